@@ -207,10 +207,12 @@ class InternalCompiler(Compiler):
             return iret
 
         # 1. Compile the expression
+        was_computed = expr.args[0] in self.expqmap
         eret = self.compile_expr(qc, expr.args[0])
 
-        # 2. If the expression is on an ancilla, perform the X updating the exp
-        if eret in qc.ancilla_lst:
+        # 2. If the expression is on an ancilla computed here (nobody else can be
+        # referencing it), perform the X in place updating the exp
+        if eret in qc.ancilla_lst and not was_computed and dest is None:
             qc.x(eret)
             self.expqmap[expr] = eret
             return eret
